@@ -59,6 +59,7 @@ type c18Op struct {
 	SmallS int
 	// publish
 	PubBase, PubDelta bool
+	PubRollback       bool // the distribution point falls back to its previous publication (a lagging mirror takes over)
 	// tear
 	TearKind int // 0 old delta with current base, 1 drop delta, 2 old base with current delta
 	// concurrent group: every member is a fetch plan of its own; StartMs is the
@@ -71,6 +72,7 @@ type c18Op struct {
 type c18Scenario struct {
 	NoCache     bool
 	CtxAware    bool // the cache refuses operations whose context is done
+	NoNumber    int  // 0 every list carries a CRL number; 1 none does; 2 every second publication's base list does not; 3 delta lists do not
 	WrapMiss    bool
 	Discard     bool
 	URLKind     int
@@ -95,6 +97,7 @@ type c18World struct {
 	baseURL string
 	dURLs   []string
 	num     int64
+	baseNum int64 // the number of the current base list, whether or not it carries it
 	cur     c18Pub
 	hist    []c18Pub
 	reg     map[string]*CRLSpec
@@ -118,6 +121,9 @@ func genC18(t *Tape, hostile bool) *c18Scenario {
 	sc.DeltaValidS = []int{600, 3600, 60, 0, 86400}[t.Weighted(35, 30, 15, 8, 12)]
 	sc.Timeout = []time.Duration{5 * time.Second, 0, time.Second}[t.Weighted(60, 20, 20)]
 	sc.CtxAware = t.Bool(40)
+	if (hostile && t.Bool(35)) || (!hostile && t.Bool(8)) {
+		sc.NoNumber = 1 + t.Choose(3)
+	}
 	n := 1 + t.Weighted(10, 20, 20, 15, 12, 10, 8, 5)
 	for i := 0; i < n; i++ {
 		op := c18Op{}
@@ -155,13 +161,15 @@ func genC18(t *Tape, hostile bool) *c18Scenario {
 			op.Adv = t.Weighted(25, 10, 10, 10, 10, 10, 10, 15)
 			op.SmallS = 1 + t.Choose(600)
 		case OpPublish:
-			switch t.Weighted(40, 30, 30) {
+			switch t.Weighted(40, 30, 30, 18) {
 			case 0:
 				op.PubBase, op.PubDelta = true, true
 			case 1:
 				op.PubDelta = true
 			case 2:
 				op.PubBase = true
+			case 3:
+				op.PubRollback = true
 			}
 		case OpTearCache:
 			op.TearKind = t.Choose(3)
@@ -233,19 +241,27 @@ func (w *c18World) publish(base, delta bool, now time.Time) {
 			s.NextUpdate = now.Truncate(time.Second).Add(time.Duration(valid) * time.Second)
 		}
 		s.Entries = []CRLEntrySpec{{Serial: big.NewInt(4242 + num), Reason: 1, RevTime: now.Add(-time.Hour)}}
+		// well-formed lists without the CRL number extension (the fetcher has
+		// no business with the number; the lists stay distinguishable by their
+		// entries)
+		switch {
+		case w.sc.NoNumber == 1, w.sc.NoNumber == 2 && !isDelta && (num/2)%2 == 0, w.sc.NoNumber == 3 && isDelta:
+			s.Number = -1
+		}
 		EncodeCRL(s)
 		w.reg[s.Hash] = s
 		return s
 	}
 	if base || w.cur.base == nil {
 		w.num += 2
+		w.baseNum = w.num
 		w.cur.base = mk(false, w.num, 0)
 	}
 	if delta || w.cur.delta == nil {
 		w.cur.deltas = nil
 		for j := range w.dURLs {
 			w.num++
-			d := mk(true, w.num, w.cur.base.Number)
+			d := mk(true, w.num, w.baseNum)
 			_ = j
 			w.cur.deltas = append(w.cur.deltas, d)
 		}
@@ -484,6 +500,17 @@ func (sc *c18Scenario) exec(obs *c18Obs) {
 			time.Sleep(d)
 			logf("clock.advance kind=%s by=%s", advNames[op.Adv], d)
 		case OpPublish:
+			if op.PubRollback {
+				if len(w.hist) >= 2 {
+					w.cur = w.hist[len(w.hist)-2]
+					w.hist = append(w.hist, w.cur)
+					st0 := "rolled back"
+					logf("publish: %s to the previous publication -> base#%d delta#%d..", st0, w.cur.base.Number, w.cur.delta.Number)
+				} else {
+					logf("publish: nothing to roll back to")
+				}
+				break
+			}
 			w.publish(op.PubBase, op.PubDelta, time.Now())
 			logf("publish base=%v delta=%v -> base#%d delta#%d..", op.PubBase, op.PubDelta, w.cur.base.Number, w.cur.delta.Number)
 		case OpRestart:
@@ -694,6 +721,14 @@ func evalC18(sc *c18Scenario, obs *c18Obs, rc *ruleCtx) {
 			// ----- F1 / F2: where does the returned bundle come from? -----
 			rc.anteTrue("C18.F1")
 			fromCache := get != nil && get.Outcome == "hit" && get.Base == fo.Base && get.Delta == fo.Delta
+			if !fromCache {
+				// (a later Cache.Get of this call counts as well)
+				for i := range fo.CacheOps {
+					if o := &fo.CacheOps[i]; o.Op == "get" && o.Outcome == "hit" && o.Base == fo.Base && o.Delta == fo.Delta {
+						fromCache = true
+					}
+				}
+			}
 			downloaded := baseOK && baseSpec.Hash == fo.Base
 			cachedStale := false
 			if fromCache {
@@ -927,7 +962,7 @@ func describeC18(sc *c18Scenario) any {
 		case OpAdvance:
 			s += "(" + advNames[op.Adv] + fmt.Sprintf(",%ds)", op.SmallS)
 		case OpPublish:
-			s += fmt.Sprintf("(base=%v,delta=%v)", op.PubBase, op.PubDelta)
+			s += fmt.Sprintf("(base=%v,delta=%v,rollback=%v)", op.PubBase, op.PubDelta, op.PubRollback)
 		case OpTearCache:
 			s += fmt.Sprintf("(%d)", op.TearKind)
 		case OpFetchConc:
@@ -943,7 +978,7 @@ func describeC18(sc *c18Scenario) any {
 		}
 		ops = append(ops, s)
 	}
-	return map[string]any{"cache_wraps_miss": sc.WrapMiss, "cache_refuses_done_context": sc.CtxAware, "no_cache": sc.NoCache, "discard_cache_error": sc.Discard, "url_kind": urlKindNames[sc.URLKind], "freshest_shape": sc.FrShape, "delta_locations": sc.NDelta,
+	return map[string]any{"cache_wraps_miss": sc.WrapMiss, "cache_refuses_done_context": sc.CtxAware, "lists_without_crl_number": sc.NoNumber, "no_cache": sc.NoCache, "discard_cache_error": sc.Discard, "url_kind": urlKindNames[sc.URLKind], "freshest_shape": sc.FrShape, "delta_locations": sc.NDelta,
 		"base_validity_s": sc.BaseValidS, "delta_validity_s": sc.DeltaValidS, "timeout_ms": sc.Timeout.Milliseconds(), "ops": ops}
 }
 
